@@ -13,6 +13,7 @@ var units = map[string]common.UnitFunc{
 	"c15":         unitC15,
 	"c06":         unitC06,
 	"c12":         unitC12,
+	"c16":         unitC16,
 	"c11scripted": unitC11scripted,
 	"c07honest":   unitC07honest,
 	"c07byz":      unitC07byz,
